@@ -46,7 +46,7 @@ def job(e_idx):
         rc, viol = run_check(prop, wt)
         meta["check_result"] = {"cmd": f"./check {prop} --tier quick", "exit": rc, "violations": len(viol), "first_obligations": [v.split("replay=")[1].split("/")[-1][:110] for v in viol[:4]]}
         out = f"{e}: {prop} exit {rc} ({len(viol)} violations)"
-        if rc == 0:
+        if rc != 1:
             others = re.findall(r"\./check (C\d\d)", meta.get("check_note", "")) + list(meta.get("also_check", []))
             for o in dict.fromkeys(others):
                 rc2, v2 = run_check(o, wt)
